@@ -236,8 +236,8 @@ def validate(ctx, traces, prefixes, label, discr=None):
 PROFILES = {
     # weights of: arrival, tick, power, format, drop/mute, sim-params (TA/power/fake windows), retune/hop
     "C03": dict(arr=0.42, tick=0.33, power=0.10, fmt=0.08, drop=0.02, simp=0.00, tune=0.05, off=(-3, 5), wrap=0.5, big=False),
-    "C18": dict(arr=0.45, tick=0.28, power=0.02, fmt=0.05, drop=0.18, simp=0.00, tune=0.02, off=(0, 2), wrap=0.1, big=False),
-    "C02": dict(arr=0.40, tick=0.25, power=0.10, fmt=0.03, drop=0.02, simp=0.00, tune=0.20, off=(0, 1), wrap=0.3, big=True),
+    "C18": dict(arr=0.45, tick=0.28, power=0.02, fmt=0.05, drop=0.16, simp=0.02, tune=0.02, off=(0, 2), wrap=0.1, big=False),
+    "C02": dict(arr=0.40, tick=0.25, power=0.08, fmt=0.03, drop=0.07, simp=0.00, tune=0.17, off=(0, 1), wrap=0.3, big=True),
     "C10": dict(arr=0.42, tick=0.30, power=0.01, fmt=0.05, drop=0.00, simp=0.20, tune=0.02, off=(0, 1), wrap=0.1, big=False),
 }
 
@@ -258,10 +258,20 @@ def traffic_session(ctx, sid, prof, length=None):
     gen = rand_burst_gen.RandBurstGen()
     hop = rng.random() < (0.5 if prof == "C02" else 0.15)
     setup_pair(s, rng, hop=hop)
-    for t in range(2, n):                     # extra transceivers: tuned like the BTS or elsewhere
-        if rng.random() < 0.8:
+    for t in range(2, n):                     # extra transceivers: tuned like the BTS / the MS, or elsewhere
+        r = rng.random()
+        if r < 0.55:
+            like = sim.trx[rng.choice([0, 1])]
+            if like._rx_freq is not None and like._tx_freq is not None:
+                s.cmd(t, "CMD RXTUNE %d" % (like._rx_freq // 1000))
+                s.cmd(t, "CMD TXTUNE %d" % (like._tx_freq // 1000))
+        elif r < 0.85:
             s.cmd(t, "CMD RXTUNE %d" % rng.choice(FREQS))
             s.cmd(t, "CMD TXTUNE %d" % rng.choice(FREQS))
+    if prof in ("C18", "C10"):
+        for t in range(n):                     # senders with a timing advance
+            if rng.random() < 0.4:
+                s.cmd(t, "CMD SETTA %d" % rng.choice([1, 2, 5, 63, -1]))
     for t in range(n):
         if rng.random() < 0.6:
             s.cmd(t, "CMD SETFORMAT %d" % rng.choice([0, 1]))
@@ -391,3 +401,46 @@ def binding_selftest(ctx, accepted):
             raise tlc.MachineryError("binding self-test: corrupted session %s was not rejected at the corrupted event "
                                      "(reached %d of %d, corrupted %d)" % (t["id"], v["reached"], v["n"], i + 1))
     ctx.extra["binding_selftest"] = out
+
+
+def restart_replay_session(ctx, sid):
+    """C02: the same frame numbers occur again after the shared clock was stopped and
+    restarted while a hopping child transceiver (which owns no clock and is not
+    managed by the MS) stayed powered on and was re-configured in between."""
+    rng = ctx.rng
+    seed_random(rng)
+    start = rng.choice([0, 5, HYPER - 2, rng.randrange(HYPER)])
+    sim = mk_sim(rng, argv=["--trx", "127.0.0.1:6700/1"], start=start)
+    s = Session(sid, sim)
+    f1, f2 = rng.sample(FREQS, 2)
+    s.cmd(0, "CMD RXTUNE %d" % f2)
+    s.cmd(0, "CMD TXTUNE %d" % f1)
+    s.cmd(1, "CMD RXTUNE %d" % f1)
+    s.cmd(1, "CMD TXTUNE %d" % f2)
+
+    def setfh():
+        n = rng.randint(2, 4)
+        ma = []
+        for _ in range(n):
+            ma += [rng.choice([f1, rng.choice(FREQS)]), rng.choice(FREQS)]
+        s.cmd(2, "CMD SETFH %d %d %s" % (rng.randrange(1, 64), rng.randrange(8), " ".join(str(x) for x in ma)))
+    setfh()
+    for t in (0, 1, 2):
+        s.cmd(t, "CMD SETFORMAT %d" % rng.choice([0, 1]))
+        s.cmd(t, "CMD POWERON")
+    g = sim.app.clck_gen
+    for rnd in range(rng.randint(2, 4)):
+        for k in range(rng.randint(1, 3)):
+            if g.running:
+                s.data(0, tx_datagram(sim.trx[0].data_if._hdr_ver, g.clck_src, rng.randrange(8), 0, bytes(rng.getrandbits(1) for _ in range(148))))
+                s.tick()
+        setfh()                                   # live re-configuration of the hopping child
+        s.cmd(0, "CMD POWEROFF")
+        s.cmd(1, "CMD POWEROFF")                  # clock stops; the MS child keeps running
+        s.cmd(0, "CMD POWERON")
+        s.cmd(1, "CMD POWERON")                   # clock restarts from its first frame
+    for k in range(3):
+        if g.running:
+            s.data(0, tx_datagram(sim.trx[0].data_if._hdr_ver, g.clck_src, rng.randrange(8), 0, bytes(148)))
+            s.tick()
+    return s.trace()
